@@ -67,6 +67,15 @@ pub mod kani {
             char::from_u32(u32::from_le_bytes([b[0], b[1], b[2], b[3]])).unwrap_or('\u{0}')
         }
     }
+    impl<T: Arbitrary> Arbitrary for Option<T> {
+        fn any() -> Self {
+            if bool::any() {
+                Some(T::any())
+            } else {
+                None
+            }
+        }
+    }
     impl<T: Arbitrary, const N: usize> Arbitrary for [T; N] {
         fn any() -> Self {
             core::array::from_fn(|_| T::any())
